@@ -140,6 +140,14 @@ def solve(ob, want_model=None, timeout_ms=None, relax=False):
         from .engine import _has_quant
         s.add(*[a for a in ob.assumptions if not _has_quant(a)])
     else:
+        light = getattr(ob, "light", None)
+        if light is not None:
+            s2 = z3.Solver()
+            s2.set("timeout", min(2000, timeout_ms or TIMEOUT_MS))
+            s2.add(*light)
+            s2.add(z3.Not(ob.goal))
+            if s2.check() == z3.unsat:
+                return "unsat", time.time() - t0, None, "z3"
         s.add(*ob.assumptions)
     s.add(z3.Not(ob.goal))
     r = s.check()
